@@ -2712,6 +2712,553 @@ def gen_utils(src_root, envpath, key="utils", title="pyttb/pyttb_utils.py", impo
     return "\n".join(out) + "\n", names
 
 
+
+# --------------------------------------------------------------------------------------
+# Option "m7": constructor argument checks (tenmat.__init__): a separate, small, fail-closed translator.
+# Every statement / expression form is listed below; anything else aborts the unit.
+# --------------------------------------------------------------------------------------
+M7_TY = {"int": "Z", "bool": "bool", "vec": "vec", "optvec": "option vec", "pylist": "vec", "row2d": "vec",
+         "nd": "ndz", "optnd": "option ndz", "shp": "pyshp", "optshp": "option pyshp", "tm": "tmz",
+         "mat": "mat", "optmat": "option mat", "nz": "vec", "stm": "stmz"}
+M7_NARROW = {"optvec": "vec", "optnd": "nd", "optshp": "shp", "optmat": "mat"}
+
+
+class ChkTr:
+    def __init__(self, unit, cls_funcs, known):
+        if "m7" not in unit.get("options", []):
+            raise Unsupported("m7 unit without option m7")
+        self.types = unit["types"]
+        self.fields = unit["fields"]            # ordered: [[attr, type], ...] = arguments of the record constructor
+        self.ctor = unit["ctor"]
+        self.numflags = unit.get("num_flags", {})
+        self.oracles = unit.get("oracles", {})  # self.<m>(x) -> parameter <m>_ : ty -> bool
+        self.cls_funcs = cls_funcs
+        self.known = known                      # callee -> (coqname, [arg types], [ret types], ndefaults-as-None)
+        self.module_imports = {}                # local name -> (module, original name) for `from m import a as b`
+        self.n = 0
+
+    def fresh(self, v):
+        self.n += 1
+        return f"{v}_{self.n}"
+
+    @staticmethod
+    def wrap(guards, text):
+        if not guards:
+            return text
+        return f"if {' && '.join(guards)} then\n{text}\nelse Err"
+
+    def self_order(self, e):
+        """self.order, checked to be the constant "F" of the class"""
+        if not (isinstance(e, ast.Attribute) and isinstance(e.value, ast.Name) and e.value.id == "self" and e.attr == "order"):
+            return False
+        f = self.cls_funcs.get("order")
+        body = strip_doc(f.body) if f is not None else []
+        if not (len(body) == 1 and isinstance(body[0], ast.Return) and isinstance(body[0].value, ast.Constant)
+                and body[0].value.value == "F"):
+            fail(e, "self.order is not the constant \"F\"")
+        return True
+
+    @staticmethod
+    def is_none_test(e, env):
+        if isinstance(e, ast.Compare) and len(e.ops) == 1 and isinstance(e.ops[0], (ast.Is, ast.IsNot)) \
+                and isinstance(e.comparators[0], ast.Constant) and e.comparators[0].value is None \
+                and isinstance(e.left, ast.Name) and e.left.id in env and env[e.left.id][1] in M7_NARROW:
+            return e.left.id, isinstance(e.ops[0], ast.Is)
+        return None
+
+    def narrowed(self, env, x):
+        v = self.fresh(x + "_v")
+        env2 = dict(env)
+        env2[x] = (v, M7_NARROW[env[x][1]])
+        return v, env2
+
+    # ---------------------------------------------------------------- expressions: (text, type, guards)
+    def expr(self, e, env):
+        if isinstance(e, ast.Name):
+            if e.id not in env:
+                fail(e, "unknown name")
+            return env[e.id][0], env[e.id][1], []
+        if isinstance(e, ast.Constant):
+            if e.value is True or e.value is False:
+                return ("true" if e.value else "false"), "bool", []
+            if isinstance(e.value, int):
+                return (str(e.value) if e.value >= 0 else f"({e.value})"), "int", []
+            fail(e, "constant")
+        if isinstance(e, ast.Tuple) and not e.elts:
+            return "[]", "pylist", []
+        if isinstance(e, ast.UnaryOp) and isinstance(e.op, ast.Not):
+            t, ty, g = self.expr(e.operand, env)
+            if ty != "bool":
+                fail(e, "not of a non-bool")
+            return f"(negb {t})", "bool", g
+        if isinstance(e, ast.BoolOp):
+            x = self.is_none_test(e.values[0], env)
+            if x and x[1] and isinstance(e.op, ast.Or) and len(e.values) >= 2:
+                rest = e.values[1] if len(e.values) == 2 else ast.BoolOp(op=ast.Or(), values=e.values[1:])
+                v, env2 = self.narrowed(env, x[0])
+                t, ty, g = self.expr(rest, env2)
+                if ty != "bool":
+                    fail(e, "or of a non-bool")
+                gg = [f"match {env[x[0]][0]} with None => true | Some {v} => {' && '.join(g)} end"] if g else []
+                return f"match {env[x[0]][0]} with None => true | Some {v} => {t} end", "bool", gg
+            parts = [self.expr(v, env) for v in e.values]
+            if any(ty != "bool" for _, ty, _ in parts):
+                fail(e, "and / or of a non-bool (Python returns the operand)")
+            is_or = isinstance(e.op, ast.Or)
+            text, guards = parts[0][0], list(parts[0][2])
+            for t, _, g in parts[1:]:          # short circuit: the guards of a later operand count only when it is evaluated
+                guards += [f"({text if is_or else '(negb ' + text + ')'} || {x_})" for x_ in g]
+                text = f"({text} || {t})" if is_or else f"({text} && {t})"
+            return text, "bool", guards
+        if isinstance(e, ast.BinOp) and isinstance(e.op, ast.Mult):
+            a, ta, ga = self.expr(e.left, env)
+            b, tb, gb = self.expr(e.right, env)
+            if (ta, tb) != ("int", "int"):
+                fail(e, "product of non-ints")
+            return f"({a} * {b})", "int", ga + gb
+        if isinstance(e, ast.Compare) and len(e.ops) == 1:
+            x = self.is_none_test(e, env)
+            if x:
+                return (f"(negb (is_some {env[x[0]][0]}))" if x[1] else f"(is_some {env[x[0]][0]})"), "bool", []
+            op, r = e.ops[0], e.comparators[0]
+            if isinstance(op, ast.Gt):
+                a, ta, ga = self.expr(e.left, env)
+                b, tb, gb = self.expr(r, env)
+                if (ta, tb) != ("int", "int"):
+                    fail(e, "> of non-ints")
+                return f"({a} >? {b})", "bool", ga + gb
+            if not isinstance(op, (ast.Eq, ast.NotEq)):
+                fail(e, "comparison")
+            neg = (lambda t_: f"(negb {t_})") if isinstance(op, ast.NotEq) else (lambda t_: t_)
+            a, ta, ga = self.expr(e.left, env)
+            if ta == "shp" and isinstance(r, ast.Tuple) and not r.elts:
+                return neg(f"(shp_eq_unit {a})"), "bool", ga + [f"(shp_eq_unit_ok {a})"]
+            b, tb, gb = self.expr(r, env)
+            if (ta, tb) == ("int", "int"):
+                return neg(f"({a} =? {b})"), "bool", ga + gb
+            fail(e, "comparison of these types")
+        if isinstance(e, ast.Attribute):
+            if self.self_order(e):
+                fail(e, "self.order outside an order= argument")
+            a, ta, ga = self.expr(e.value, env)
+            if e.attr == "shape" and ta == "nd":
+                return f"(nd7_shape {a})", "pylist", ga
+            if e.attr == "size" and ta == "nd":
+                return f"(nd7_size {a})", "int", ga
+            if e.attr == "size" and ta == "vec":
+                return f"(zlen {a})", "int", ga
+            if e.attr == "size" and ta == "mat":
+                return f"(np_size2 {a})", "int", ga
+            fail(e, "attribute")
+        if isinstance(e, ast.Subscript) and isinstance(e.value, ast.Attribute) and e.value.attr == "shape" \
+                and isinstance(e.slice, ast.Constant) and e.slice.value == 0:
+            a, ta, ga = self.expr(e.value.value, env)
+            if ta == "mat":
+                return f"(zlen {a})", "int", ga
+        if isinstance(e, ast.Subscript):
+            a, ta, ga = self.expr(e.value, env)
+            if isinstance(e.slice, ast.Tuple) and len(e.slice.elts) == 2 and isinstance(e.slice.elts[0], ast.Slice) \
+                    and e.slice.elts[0].lower is None and e.slice.elts[0].upper is None and e.slice.elts[0].step is None \
+                    and isinstance(e.slice.elts[1], ast.Constant):
+                k_ = e.slice.elts[1].value
+                if ta == "mat" and isinstance(k_, int) and not isinstance(k_, bool) and k_ >= 0:
+                    return f"(np7_col {a} {k_})", "vec", ga + [f"(np7_col_ok {a} {k_})"]
+                if ta == "vec" and k_ is None:      # v[:, None]: 1-d / column shapes are not distinguished
+                    return a, "vec", ga
+                fail(e, "column subscript")
+            if ta == "pylist" and isinstance(e.slice, ast.Constant) and isinstance(e.slice.value, int):
+                return f"(znth 0 {a} {e.slice.value})", "int", ga + [f"(idx_ok {a} {e.slice.value})"]
+            i, ti, gi = self.expr(e.slice, env)
+            if ta == "vec" and ti in ("vec", "nz"):      # integer-array indexing of a 1-d array (negative entries count from the end)
+                return f"(np_take 0 {a} {i})", "vec", ga + gi + [f"(np_take_ok {a} {i})"]
+            if ta == "mat" and ti == "nz":       # rows at the positions np.nonzero returned
+                return f"(np_take [] {a} {i})", "mat", ga + gi + [f"(np_take_ok {a} {i})"]
+            fail(e, "subscript")
+        if isinstance(e, ast.Call):
+            return self.call(e, env)
+        fail(e, "expression")
+
+    def call(self, e, env):
+        f = e.func
+        fn = ast.unparse(f)
+        kw = {k.arg: k.value for k in e.keywords}
+        if None in kw:
+            fail(e, "**kwargs")
+        A = e.args
+        if fn == "len" and len(A) == 1 and not kw:
+            a, ta, g = self.expr(A[0], env)
+            if ta in ("vec", "pylist"):
+                return f"(zlen {a})", "int", g
+        if fn == "prod" and len(A) == 1 and not kw:
+            a, ta, g = self.expr(A[0], env)
+            if ta in ("pylist", "vec"):
+                return f"(zprod {a})", "int", g
+        if fn == "np.prod" and len(A) == 1 and not kw:
+            a, ta, g = self.expr(A[0], env)
+            if ta == "vec":
+                return f"(zprod {a})", "int", g
+        if fn == "isinstance" and len(A) == 2 and not kw and ast.unparse(A[1]) == "np.ndarray":
+            a, ta, g = self.expr(A[0], env)
+            if ta == "nd":
+                return "true", "bool", g
+        if fn == "issubclass" and len(A) == 2 and not kw and ast.unparse(A[1]) == "np.number" \
+                and isinstance(A[0], ast.Attribute) and A[0].attr == "type" and isinstance(A[0].value, ast.Attribute) \
+                and A[0].value.attr == "dtype" and isinstance(A[0].value.value, ast.Name) and A[0].value.value.id in self.numflags:
+            nm = A[0].value.value.id
+            if env[nm][1] != "nd":
+                fail(e, "dtype of a non-array")
+            return self.numflags[nm], "bool", []
+        if fn == "np.array" and len(A) == 1:
+            if isinstance(A[0], ast.List) and not A[0].elts:
+                if not kw:
+                    return "[]", "vec", []
+                is_int = lambda x_: isinstance(x_, ast.Name) and x_.id == "int"
+                if set(kw) == {"dtype"} and is_int(kw["dtype"]):
+                    return "[]", "vec", []
+                if set(kw) == {"ndmin"} and isinstance(kw["ndmin"], ast.Constant) and kw["ndmin"].value == 2:
+                    return "[]", "vec", []          # a (1, 0) array of values: no entries
+                if set(kw) == {"ndmin", "dtype"} and isinstance(kw["ndmin"], ast.Constant) and kw["ndmin"].value == 2 and is_int(kw["dtype"]):
+                    return "[@nil Z]", "mat", []    # a (1, 0) integer matrix: one row without columns
+                if set(kw) == {"ndmin", "order"} and isinstance(kw["ndmin"], ast.Constant) and kw["ndmin"].value == 2 \
+                        and self.self_order(kw["order"]):
+                    return "nd7_empty2", "nd", []
+            if not kw and isinstance(A[0], ast.List) and len(A[0].elts) == 1 and isinstance(A[0].elts[0], ast.Call) \
+                    and ast.unparse(A[0].elts[0].func) == "range" and len(A[0].elts[0].args) == 1 and not A[0].elts[0].keywords:
+                a, ta, g = self.expr(A[0].elts[0].args[0], env)
+                if ta == "int":
+                    return f"(np_arange 0 {a})", "row2d", g
+            if not kw:
+                a, ta, g = self.expr(A[0], env)
+                if ta in ("vec", "pylist"):           # np.array of a tuple of ints (what parse_shape returns)
+                    return a, "vec", g
+        if fn == "np.sort" and len(A) == 1 and not kw:
+            a, ta, g = self.expr(A[0], env)
+            if ta == "vec":
+                return f"(np_sort {a})", "vec", g
+        if fn == "np.hstack" and len(A) == 1 and (not kw or (set(kw) == {"dtype"} and ast.unparse(kw["dtype"]) == "int")) \
+                and isinstance(A[0], ast.List) and len(A[0].elts) == 2:
+            a, ta, ga = self.expr(A[0].elts[0], env)
+            b, tb, gb = self.expr(A[0].elts[1], env)
+            if (ta, tb) == ("vec", "vec"):
+                return f"({a} ++ {b})", "vec", ga + gb
+        if isinstance(f, ast.Attribute) and f.attr == "copy" and not A and not kw:
+            a, ta, g = self.expr(f.value, env)
+            if ta in ("vec", "nd"):
+                return a, ta, g
+        if isinstance(f, ast.Attribute) and ((f.attr == "astype" and len(A) == 1 and ast.unparse(A[0]) == "int")
+                                             or (f.attr == "flatten" and not A)) and not kw:
+            a, ta, g = self.expr(f.value, env)
+            if ta == "vec":
+                return a, ta, g
+        if fn == "np.max" and len(A) == 1 and not kw:
+            a, ta, g = self.expr(A[0], env)
+            if ta == "vec":
+                return f"(np7_max {a})", "int", g + [f"(0 <? zlen {a})"]
+        if fn == "np.squeeze" and len(A) == 1 and set(kw) == {"axis"} and isinstance(kw["axis"], ast.Constant) and kw["axis"].value == 1:
+            a, ta, g = self.expr(A[0], env)
+            if ta == "vec":               # a column of values: 1-d / column shapes are not distinguished
+                return a, ta, g
+        if fn == "np.nonzero" and len(A) == 1 and not kw:
+            a, ta, g = self.expr(A[0], env)
+            if ta == "vec":
+                return f"(np7_nonzero {a})", "nz", g
+        if fn == "accumarray" and len(A) == 2 and set(kw) == {"size", "func"} and ast.unparse(kw["func"]) == "sum" \
+                and self.module_imports.get("accumarray") == ("numpy_groupies", "aggregate"):
+            a, ta, ga = self.expr(A[0], env)
+            b, tb, gb = self.expr(A[1], env)
+            c, tc, gc = self.expr(kw["size"], env)
+            if (ta, tb, tc) == ("vec", "vec", "int"):
+                return f"(np7_accum_sum {a} {b} {c})", "vec", ga + gb + gc + [f"(np7_accum_ok {a} {b} {c})"]
+        if isinstance(f, ast.Attribute) and f.attr == "all" and not A and not kw and isinstance(f.value, ast.Compare) \
+                and len(f.value.ops) == 1 and isinstance(f.value.ops[0], ast.Eq):
+            a, ta, ga = self.expr(f.value.left, env)
+            b, tb, gb = self.expr(f.value.comparators[0], env)
+            if (ta, tb) == ("row2d", "vec"):      # (1, n) against (m,): only m = n is modelled (other lengths: Err)
+                return f"(vec_eqb {a} {b})", "bool", ga + gb + [f"(zlen {a} =? zlen {b})"]
+        if fn == "np.reshape" and len(A) == 2 and set(kw) == {"order"} and self.self_order(kw["order"]) \
+                and isinstance(A[1], ast.Tuple):
+            a, ta, ga = self.expr(A[0], env)
+            dims = [self.expr(d, env) for d in A[1].elts]
+            if ta == "nd" and all(t_ == "int" for _, t_, _ in dims):
+                s_ = "[" + "; ".join(d[0] for d in dims) + "]"
+                return f"(nd7_reshapeF {a} {s_})", "nd", ga + [x_ for d in dims for x_ in d[2]] + [f"(nd7_reshapeF_ok {a} {s_})"]
+        if fn == "to_memory_order" and len(A) == 2 and set(kw) == {"copy"} and self.self_order(A[1]):
+            a, ta, ga = self.expr(A[0], env)
+            c, tc, gc = self.expr(kw["copy"], env)
+            if (ta, tc) == ("nd", "bool"):
+                return f"(np_to_memory_order {a} {c})", "nd", ga + gc
+        if isinstance(f, ast.Attribute) and isinstance(f.value, ast.Name) and f.value.id == "self" and f.attr in self.oracles \
+                and len(A) == 1 and not kw:
+            a, ta, g = self.expr(A[0], env)
+            if ta == self.oracles[f.attr]:
+                return f"({f.attr}_ {a})", "bool", g
+        fail(e, "call")
+
+    # ---------------------------------------------------------------- statements
+    @classmethod
+    def terminates(cls, stmts):
+        if not stmts:
+            return False
+        s = stmts[-1]
+        if isinstance(s, (ast.Return, ast.Raise)):
+            return True
+        if isinstance(s, ast.Assert) and isinstance(s.test, ast.Constant) and s.test.value is False:
+            return True
+        if isinstance(s, ast.If):
+            return cls.terminates(s.body) and cls.terminates(s.orelse)
+        return False
+
+    @staticmethod
+    def assigned(stmts):
+        out = set()
+        for s in stmts:
+            for n in ast.walk(s):
+                if isinstance(n, ast.Name) and isinstance(n.ctx, ast.Store):
+                    out.add(n.id)
+                if isinstance(n, ast.Attribute) and isinstance(n.ctx, ast.Store):
+                    fail(n, "store to an attribute inside a branch that continues")
+        return out
+
+    def finish(self, flds, node):
+        miss = [a for a, _ in self.fields if a not in flds]
+        if miss:
+            fail(node, f"return before the fields {miss} are set")
+        return f"Ok ({self.ctor} {' '.join(flds[a] for a, _ in self.fields)})"
+
+    def cond(self, test, env, A, B):
+        """if test: A(env') else: B(env'), with `is None` narrowing"""
+        if isinstance(test, ast.UnaryOp) and isinstance(test.op, ast.Not) and not self.is_none_test(test.operand, env):
+            t, ty, g = self.expr(test, env)
+            if ty != "bool":
+                fail(test, "test is not a bool")
+            return self.wrap(g, f"if {t} then\n{A(env)}\nelse\n{B(env)}")
+        x = self.is_none_test(test, env)
+        if x:
+            v, env2 = self.narrowed(env, x[0])
+            none_b, some_b = (A, B) if x[1] else (B, A)
+            return f"match {env[x[0]][0]} with\n| None =>\n{none_b(env)}\n| Some {v} =>\n{some_b(env2)}\nend"
+        if isinstance(test, ast.BoolOp) and isinstance(test.op, ast.Or) and len(test.values) >= 2:
+            x = self.is_none_test(test.values[0], env)
+            if x and x[1]:
+                rest = test.values[1] if len(test.values) == 2 else ast.BoolOp(op=ast.Or(), values=test.values[1:])
+                v, env2 = self.narrowed(env, x[0])
+                return f"match {env[x[0]][0]} with\n| None =>\n{A(env)}\n| Some {v} =>\n{self.cond(rest, env2, A, B)}\nend"
+        t, ty, g = self.expr(test, env)
+        if ty != "bool":
+            fail(test, "test is not a bool")
+        return self.wrap(g, f"if {t} then\n{A(env)}\nelse\n{B(env)}")
+
+    def blk(self, stmts, env, flds, k, node=None):
+        if not stmts:
+            return k(env, flds) if k else self.finish(flds, node)
+        s, rest = stmts[0], stmts[1:]
+        go = lambda env2, flds2=flds: self.blk(rest, env2, flds2, k, s)
+        if isinstance(s, ast.Return):
+            if s.value is not None:
+                fail(s, "return with a value")
+            return self.finish(flds, s)
+        if isinstance(s, ast.Raise):
+            return "Err"
+        if isinstance(s, ast.Assert):
+            if isinstance(s.test, ast.Constant) and s.test.value is False:
+                return "Err"
+            return self.cond(s.test, env, lambda e2: go(e2), lambda e2: "Err")
+        if isinstance(s, ast.Expr):
+            c = s.value
+            if isinstance(c, ast.Call) and ast.unparse(c.func) == "logging.warning" and len(c.args) == 1 and not c.keywords \
+                    and isinstance(c.args[0], (ast.JoinedStr, ast.Constant)):
+                for n in ast.walk(c.args[0]):
+                    if isinstance(n, ast.FormattedValue) and not self.self_order(n.value):
+                        fail(n, "formatted value in a warning")
+                return go(env)
+            fail(s, "expression statement")
+        if isinstance(s, ast.If):
+            tA, tB = self.terminates(s.body), self.terminates(s.orelse)
+            if tA or tB or (not rest and k is None):
+                return self.cond(s.test, env, lambda e2: self.blk(s.body, e2, flds, go, s),
+                                 lambda e2: self.blk(s.orelse, e2, flds, go, s))
+            J0 = sorted(self.assigned(s.body) | self.assigned(s.orelse))
+            bound = []
+            n0 = self.n
+            self.cond(s.test, env, lambda e2: self.blk(s.body, e2, flds, lambda e3, f3: bound.append(set(e3)) or "", s),
+                      lambda e2: self.blk(s.orelse, e2, flds, lambda e3, f3: bound.append(set(e3)) or "", s))
+            self.n = n0         # first pass: which names are bound on every path (a name bound on some paths only is dropped)
+            J = [v for v in J0 if all(v in b_ for b_ in bound)]
+            if not J:
+                fail(s, "if without effect")
+            seen = []
+
+            def kj(e2, f2):
+                seen.append(tuple(e2[v][1] for v in J))
+                return "Ok (" + ", ".join(e2[v][0] for v in J) + ")"
+            txt = self.cond(s.test, env, lambda e2: self.blk(s.body, e2, flds, kj, s), lambda e2: self.blk(s.orelse, e2, flds, kj, s))
+            if len(set(seen)) != 1:
+                fail(s, f"types at the join differ: {seen}")
+            env2 = {k_: v_ for k_, v_ in env.items() if k_ not in J0}
+            env2.update({k_: env[k_] for k_ in J0 if k_ in env and k_ not in self.assigned(s.body) | self.assigned(s.orelse)})
+            names = []
+            for v, ty in zip(J, seen[0]):
+                nm = self.fresh(v)
+                names.append(nm)
+                env2[v] = (nm, ty)
+            pat = names[0] if len(names) == 1 else "'(" + ", ".join(names) + ")"
+            return f"bind ({txt}) (fun {pat} =>\n{go(env2)})"
+        if isinstance(s, ast.AnnAssign) and s.value is not None:
+            s = ast.Assign(targets=[s.target], value=s.value, lineno=s.lineno)
+        if isinstance(s, ast.Assign) and len(s.targets) == 1:
+            tg, val = s.targets[0], s.value
+            if isinstance(val, ast.Call) and ast.unparse(val.func) in self.known and not val.keywords:
+                cq, atys, rtys, extra = self.known[ast.unparse(val.func)]
+                if len(val.args) + len(extra) != len(atys):
+                    fail(s, "arity of a translated callee")
+                args, guards = [], []
+                for a_, want in zip(val.args, atys):
+                    t, ty, g = self.expr(a_, env)
+                    if ty == want:
+                        pass
+                    elif M7_NARROW.get(want) == ty:
+                        t = f"(Some {t})"
+                    elif (ty, want) == ("pylist", "shp"):
+                        t = f"(shp_of_ints {t})"
+                    else:
+                        fail(a_, f"argument type {ty}, callee wants {want}")
+                    args.append(t)
+                    guards += g
+                args += extra
+                tgs = [tg] if isinstance(tg, ast.Name) else (tg.elts if isinstance(tg, ast.Tuple) else None)
+                if tgs is None or len(tgs) != len(rtys) or not all(isinstance(x_, ast.Name) for x_ in tgs):
+                    fail(s, "targets of a translated callee")
+                env2 = dict(env)
+                names = []
+                for x_, ty in zip(tgs, rtys):
+                    nm = self.fresh(x_.id)
+                    names.append(nm)
+                    env2[x_.id] = (nm, ty)
+                pat = names[0] if len(names) == 1 else "'(" + ", ".join(names) + ")"
+                return self.wrap(guards, f"bind ({cq} {' '.join(args)}) (fun {pat} =>\n{go(env2)})")
+            if isinstance(val, ast.Call) and ast.unparse(val.func) == "np.unique" and len(val.args) == 1 \
+                    and {k_.arg: ast.unparse(k_.value) for k_ in val.keywords} == {"axis": "0", "return_inverse": "True"} \
+                    and isinstance(tg, ast.Tuple) and len(tg.elts) == 2 and all(isinstance(x_, ast.Name) for x_ in tg.elts):
+                t, ty, g = self.expr(val.args[0], env)
+                if ty != "mat":
+                    fail(s, "np.unique(axis=0) of a non-matrix")
+                n1, n2 = self.fresh(tg.elts[0].id), self.fresh(tg.elts[1].id)
+                env2 = dict(env)
+                env2[tg.elts[0].id] = (n1, "mat")
+                env2[tg.elts[1].id] = (n2, "vec")
+                return self.wrap(g + [f"(np7_rect {t})"], f"let '({n1}, {n2}) := np7_unique_rows_inv {t} in\n{go(env2)}")
+            if isinstance(tg, ast.Name) and self.types.get(tg.id) == "mat" and ast.unparse(val) == "np.array([])":
+                t, ty, g = "[]", "mat", []        # the empty 1-d array where a matrix is expected: no rows
+            else:
+                t, ty, g = self.expr(val, env)
+            if isinstance(tg, ast.Attribute) and isinstance(tg.value, ast.Name) and tg.value.id == "self":
+                want = dict(self.fields).get(tg.attr)
+                if want is None or not (ty == want or (ty, want) == ("pylist", "vec")):
+                    fail(s, f"field {tg.attr}: type {ty}")
+                nm = self.fresh("self_" + tg.attr)
+                f2 = dict(flds)
+                f2[tg.attr] = nm
+                return self.wrap(g, f"let {nm} := {t} in\n{go(env, f2)}")
+            if isinstance(tg, ast.Name):
+                if tg.id in self.types and self.types[tg.id] != ty and M7_NARROW.get(self.types[tg.id]) != ty \
+                        and not (tg.id in env and env[tg.id][1] == ty):
+                    declared = self.types[tg.id]
+                    if (ty, declared) == ("pylist", "optshp"):      # a tuple of ints stored in a shape-typed variable
+                        t, ty = f"(shp_of_ints {t})", "shp"
+                    else:
+                        fail(s, f"{tg.id}: type {ty}, declared {declared}")
+                elif tg.id in self.types and (ty, self.types[tg.id]) == ("pylist", "optshp"):
+                    t, ty = f"(shp_of_ints {t})", "shp"
+                nm = self.fresh(tg.id)
+                env2 = dict(env)
+                env2[tg.id] = (nm, ty)
+                return self.wrap(g, f"let {nm} := {t} in\n{go(env2)}")
+        fail(s, "statement")
+
+    def func(self, f, unit):
+        if f.args.vararg or f.args.kwarg or f.args.kwonlyargs or f.args.posonlyargs:
+            fail(f, "parameters")
+        env, sig = {}, []
+        for o_, ty in self.oracles.items():
+            sig.append(f"({o_}_ : {M7_TY[ty]} -> bool)")
+        for a in f.args.args:
+            p = a.arg
+            if p == "self":
+                continue
+            if p not in self.types:
+                fail(f, f"parameter {p} missing from the type environment")
+            env[p] = (p, self.types[p])
+            sig.append(f"({p} : {M7_TY[self.types[p]]})")
+            if p in self.numflags:
+                sig.append(f"({self.numflags[p]} : bool)")
+        for n in ast.walk(f):
+            if isinstance(n, (ast.While, ast.For, ast.Try, ast.With, ast.Lambda, ast.Global, ast.Nonlocal, ast.NamedExpr,
+                              ast.Yield, ast.Await, ast.Delete)):
+                fail(n, "construct outside the m7 language")
+        # the names the rules read as numpy / builtins / pyttb helpers must be exactly those: never rebound, imported as expected
+        reserved = {"np", "len", "prod", "isinstance", "issubclass", "int", "sum", "range", "accumarray", "to_memory_order",
+                    "logging", "parse_shape", "gather_wrap_dims", "self", "ValueError"}
+        want = {"prod": ("math", "prod"), "to_memory_order": ("pyttb.pyttb_utils", "to_memory_order"),
+                "parse_shape": ("pyttb.pyttb_utils", "parse_shape"), "gather_wrap_dims": ("pyttb.pyttb_utils", "gather_wrap_dims"),
+                "accumarray": ("numpy_groupies", "aggregate")}
+        for a in f.args.args:
+            if a.arg in reserved - {"self"}:
+                fail(f, f"parameter named {a.arg}")
+        for n in ast.walk(f):
+            if isinstance(n, ast.Name) and isinstance(n.ctx, ast.Store) and n.id in reserved:
+                fail(n, f"rebinding of {n.id}")
+            if isinstance(n, ast.Name) and isinstance(n.ctx, ast.Load) and n.id in want and self.module_imports.get(n.id) != want[n.id]:
+                fail(n, f"{n.id} is not {'.'.join(want[n.id])}")
+            if isinstance(n, ast.Name) and isinstance(n.ctx, ast.Load) and n.id == "np" and self.module_aliases.get("np") != "numpy":
+                fail(n, "np is not numpy")
+        txt = self.blk(strip_doc(f.body), env, {}, None, f)
+        return f"Definition {unit['coqname']} {' '.join(sig)} : res ({M7_TY[unit['returns'][0]]}) :=\n{txt}.\n"
+
+
+def gen_checks(src_root, envpath, key, title, imports):
+    env = json.load(open(envpath))
+    out = [f"(* GENERATED by tools/pyx2v.py from {title} — do not edit *)",
+           "From Coq Require Import List ZArith Bool.", f"From PV Require Import {imports}.",
+           "Import ListNotations.", "Local Open Scope Z_scope.", ""]
+    names = []
+    for unit in env[key]:
+        path = os.path.join(src_root, unit["file"])
+        tree = ast.parse(open(path).read())
+        funcs = find_funcs(tree)
+        if unit["name"] not in funcs:
+            raise Unsupported(f"{unit['file']}: function {unit['name']} not found")
+        cls = unit["name"].split(".")[0]
+        cls_funcs = {k.split(".", 1)[1]: v for k, v in funcs.items() if k.startswith(cls + ".")}
+        known = {}
+        for cal, (ekey, extra) in unit.get("callees", {}).items():      # translated callees of other units (signature from the env)
+            cu = [u for u in env[ekey] if u["name"] == cal]
+            if len(cu) != 1:
+                raise Unsupported(f"callee {cal} not in env unit {ekey}")
+            cpath = os.path.join(src_root, cu[0]["file"])
+            cf = find_funcs(ast.parse(open(cpath).read()))
+            if cal not in cf:
+                raise Unsupported(f"callee {cal} not found")
+            ctys = [cu[0]["types"][a] for a in IntTr.params(cf[cal])]
+            dflt = param_defaults(cf[cal])
+            pn = IntTr.params(cf[cal])
+            for nm_ in pn[len(pn) - len(extra):]:       # trailing parameters left at their default: must be None in the source
+                if nm_ not in dflt or not (isinstance(dflt[nm_], ast.Constant) and dflt[nm_].value is None):
+                    raise Unsupported(f"callee {cal}: default of {nm_} is not None")
+            known[cal] = (cu[0].get("coqname", cal), ctys, cu[0]["returns"], list(extra))
+        tr = ChkTr(unit, cls_funcs, known)
+        tr.module_aliases = {}
+        for n_ in tree.body:
+            if isinstance(n_, ast.ImportFrom):
+                for al in n_.names:
+                    tr.module_imports[al.asname or al.name] = (n_.module, al.name)
+            if isinstance(n_, ast.Import):
+                for al in n_.names:
+                    tr.module_aliases[al.asname or al.name] = al.name
+        out.append(tr.func(funcs[unit["name"]], unit))
+        names.append(unit["name"])
+    return "\n".join(out) + "\n", names
+
+
 def write_if_changed(path, text):
     old = open(path).read() if os.path.exists(path) else None
     if old != text:
@@ -2764,7 +3311,13 @@ def main():
                                                          "Np.NpZ4 Np.NpZ4b Np.NpZ4e Gen.GenUtils", extern=("utils",))),
                      ("GenMethods", lambda: gen_utils(src, envp, "methods", "simple methods / properties of pyttb classes "
                                                       "(`self` is a parameter: a record of the fields the method reads)",
-                                                      "Np.NpZ Np.NpZ2 Np.NpZ3"))):
+                                                      "Np.NpZ Np.NpZ2 Np.NpZ3")),
+                     ("GenTenmat7", lambda: gen_checks(src, envp, "tenmat7", "pyttb/tenmat.py (tenmat.__init__: argument checks and "
+                                                       "stored fields; option m7)",
+                                                       "Np.NpZ Np.NpZ2 Np.NpZ3 Np.NpZ3b Np.NpZ7 Gen.GenUtils Gen.GenUtils2 Gen.GenUtils3b")),
+                     ("GenSptenmat7", lambda: gen_checks(src, envp, "sptenmat7", "pyttb/sptenmat.py (sptenmat.__init__: argument checks, "
+                                                         "duplicate summation, stored fields; option m7)",
+                                                         "Np.NpZ Np.NpZ2 Np.NpZ3 Np.NpZ3b Np.NpZ7 Np.NpZ7b Gen.GenUtils Gen.GenUtils2"))):
         try:
             text, names = fn()
             changed = write_if_changed(os.path.join(outdir, unit + ".v"), text)
